@@ -1758,9 +1758,14 @@ def div(ir, instr, src1):
     do_except.append(m2_expr.ExprAssign(ir.IRDst, loc_next_expr))
     blk_except = IRBlock(ir.loc_db, loc_except, [AssignBlock(do_except, instr)])
 
+    # #DE is raised when the divisor is zero or when the quotient does not
+    # fit the destination: high part of the dividend >= divisor
+    high = src2[size:]
     e = []
     e.append(m2_expr.ExprAssign(ir.IRDst,
-                             m2_expr.ExprCond(src1, loc_div_expr, loc_except_expr)))
+                             m2_expr.ExprCond(
+                                 m2_expr.expr_is_unsigned_lower(high, src1),
+                                 loc_div_expr, loc_except_expr)))
 
     return e, [blk_div, blk_except]
 
@@ -1805,11 +1810,34 @@ def idiv(ir, instr, src1):
     do_except.append(m2_expr.ExprAssign(ir.IRDst, loc_next_expr))
     blk_except = IRBlock(ir.loc_db, loc_except, [AssignBlock(do_except, instr)])
 
-    e = []
-    e.append(m2_expr.ExprAssign(ir.IRDst,
-                             m2_expr.ExprCond(src1, loc_div_expr, loc_except_expr)))
+    # #DE is also raised when the quotient does not fit the destination.
+    # The test is done in its own block: the quotient is only evaluated for
+    # a non-zero divisor
+    loc_check, loc_check_expr = ir.gen_loc_key_and_expr(ir.IRDst.size)
+    overflow = c_d ^ c_d[:size].signExtend(src2.size)
+    do_check = [m2_expr.ExprAssign(ir.IRDst,
+                                   m2_expr.ExprCond(overflow,
+                                                    loc_except_expr,
+                                                    loc_div_expr))]
+    blk_check = IRBlock(ir.loc_db, loc_check, [AssignBlock(do_check, instr)])
 
-    return e, [blk_div, blk_except]
+    # The most negative dividend divided by -1 is not representable either:
+    # do not evaluate this quotient
+    int_min = m2_expr.ExprInt(1 << (src2.size - 1), src2.size)
+    minus_one = m2_expr.ExprInt(-1, src2.size)
+    not_min_by_m1 = ((src2 ^ int_min) |
+                     (src1.signExtend(src2.size) ^ minus_one))
+
+    i0, i1 = m2_expr.ExprInt(0, 1), m2_expr.ExprInt(1, 1)
+    can_divide = (m2_expr.ExprCond(src1, i1, i0) &
+                  m2_expr.ExprCond(not_min_by_m1, i1, i0))
+
+    e = []
+    e.append(m2_expr.ExprAssign(
+        ir.IRDst,
+        m2_expr.ExprCond(can_divide, loc_check_expr, loc_except_expr)))
+
+    return e, [blk_check, blk_div, blk_except]
 
 
 # XXX size to do; eflag
